@@ -22,7 +22,7 @@
    indefinite, on any other head = minimal); an exhausted list continues with 0, so `[]` is the encoder's own
    output (ReframeFacts: rf_nil).  `reframe Sc d v bs` = some choice list yields bs.
    Definitions only; proofs in Proofs/DeriveReframeFacts.v. *)
-From MC Require Export DeriveEnc Cbor.
+From MC Require Export DeriveEnc Cbor TypeSem.
 Local Open Scope N_scope.
 
 (* a computation that consumes choices *)
@@ -180,3 +180,25 @@ Definition reframe_with (ch : list N) (Sc : schema) (d : nat) (v : value) : opti
 
 Definition reframe (Sc : schema) (d : nat) (v : value) (bs : bytes) : Prop :=
   exists ch, reframe_with ch Sc d v = Some bs.
+
+(* ---- (c) generalised: the leaves re-framed too.  A leaf of built-in type t with value v is either what the encoder
+   writes, or ANY well-formed item e to which the specification of the built-in types (Spec/TypeSem.v, the open-record
+   reading spec_ty_lenient_at of property C04) assigns the value v and the whole item — any head widths, indefinite
+   strings / arrays / maps, chunked byte strings, surplus record elements … below the derive layer.  alloc is the one
+   feature the specification depends on (skip() of nested indefinite items without `alloc`). *)
+Definition rf_leaf_item (alloc : bool) (t : ty) (v : value) (b : bytes) : Prop :=
+  (exists cs, encode_ty t v = Some cs /\ b = flat cs) \/
+  (exists e, b = ser e /\ wf e = true /\ spec_ty_lenient_at alloc t e = TXOk v (len (ser e))).
+
+Definition rf_leaf_writer (alloc : bool) (leaf : ty -> value -> RF bytes) : Prop :=
+  forall t v ch b ch', leaf t v ch = Some (b, ch') -> rf_leaf_item alloc t v b.
+
+Definition reframe_leaves (alloc : bool) (Sc : schema) (d : nat) (v : value) (bs : bytes) : Prop :=
+  exists leaf ch ch', rf_leaf_writer alloc leaf /\ gen_reframe_f leaf (S d) Sc d v ch = Some (bs, ch').
+
+(* an instance: unsigned integer leaves with a head width taken from the choice list, everything else as written *)
+Definition rf_leaf_wide (t : ty) (v : value) : RF bytes :=
+  match t, v with
+  | TyU w, VNat n => if n <=? umax w then rf_head 0 n else rf_fail
+  | _, _ => rf_leaf_enc t v
+  end.
